@@ -789,6 +789,11 @@ func fieldOfStructValue(sv ssa.Value, field int, depth int) (ssa.Value, bool) {
 		if cvs, ok := callerValues(x, -1); ok && len(cvs) == 1 {
 			return fieldOfStructValue(cvs[0].val, field, depth+1)
 		}
+	case *ssa.Alloc:
+		// &T{…}: the pointer to a literal
+		if st := allocFieldStore(x, field); st != nil {
+			return st.Val, true
+		}
 	}
 	return nil, false
 }
@@ -958,21 +963,38 @@ func callerValues(p *ssa.Parameter, field int) (out []callerVal, ok bool) {
 // parameters) to the value the caller computed.  The result may belong to another function; it
 // is meant for identity comparisons, not for dominance arguments.
 func origin(v ssa.Value) ssa.Value {
+	ch := originChain(v)
+	return ch[len(ch)-1]
+}
+
+// originChain: the successive values origin() passes through, starting with v itself.
+func originChain(v ssa.Value) []ssa.Value {
+	chain := []ssa.Value{v}
 	for i := 0; i < 8; i++ {
 		n := unspill(v)
 		if fv, ok := localFieldValue(n); ok {
 			n = fv
 		} else if p, field, ok := paramOrigin(n); ok {
-			if cvs, ok := callerValues(p, field); ok && len(cvs) == 1 {
-				n = cvs[0].val
+			if cvs, ok := callerValues(p, field); ok && len(cvs) >= 1 {
+				// one call site, or several that all pass the same value
+				same := true
+				for _, cv := range cvs[1:] {
+					if cv.val != cvs[0].val {
+						same = false
+					}
+				}
+				if same {
+					n = cvs[0].val
+				}
 			}
 		}
 		if n == v {
-			return v
+			return chain
 		}
 		v = n
+		chain = append(chain, v)
 	}
-	return v
+	return chain
 }
 
 // ---- conditions and boolean helpers that imply an atomic fact
